@@ -222,7 +222,7 @@ func c16Fetch(c *Ctx) {
 		v, _ := errVarOfCall(info, g.Nodes[id].N, m[id])
 		return v
 	}
-	var badRemove, badReturn []string
+	var badRemove, badReturn, droppedOnFailure []string
 	aut := Automaton{
 		Init: mNone,
 		OnNode: func(id, st int) int {
@@ -240,6 +240,7 @@ func c16Fetch(c *Ctx) {
 				case mUnzipOK:
 					return mRmPend
 				case mTreeGone:
+					droppedOnFailure = append(droppedOnFailure, c.pos(g.pos(id)))
 					return mDropped
 				case mNone:
 					return mNone
@@ -305,6 +306,16 @@ func c16Fetch(c *Ctx) {
 	sort.Strings(badRemove)
 	c.check("fetch.marker-dropped-only-when-safe", f.Name, f.Body.Pos(), len(badRemove) == 0,
 		"os.Remove(marker) may run only after Unzip succeeded, or after Unzip failed and RemoveAll(dir) succeeded; offending: "+strings.Join(uniq(badRemove), "; "))
+
+	// 5b. the marker survives a failed extraction. downloadDir is lock-free and
+	// reads stat(dir) first, stat(marker) second; a writer that rolls a failed
+	// extraction back by removing the directory and then the marker lets a
+	// reader that saw the half-extracted directory find the marker gone and
+	// report that directory as complete. Leaving the marker (the state a crash
+	// leaves, cleaned up under the lock by the next Fetch) closes the window.
+	sort.Strings(droppedOnFailure)
+	c.check("fetch.marker-kept-on-failed-extraction", f.Name, f.Body.Pos(), len(droppedOnFailure) == 0,
+		"os.Remove(marker) must not run on the failure path of Unzip: the lock-free reader (downloadDir: stat(dir), then stat(.partial)) can observe the directory during extraction and the missing marker after the rollback, and report a directory that was never complete; offending: "+strings.Join(uniq(droppedOnFailure), "; "))
 
 	// 6. stale-directory cleanup only under the lock.
 	var cleanup []int
